@@ -11,6 +11,7 @@ import (
 	_ "crypto/sha256"
 	_ "crypto/sha512"
 	"crypto/x509"
+	"encoding/asn1"
 	"encoding/base64"
 	"encoding/xml"
 	"errors"
@@ -23,6 +24,7 @@ import (
 	"os"
 	"strings"
 	"testing"
+	"time"
 
 	"github.com/beevik/etree"
 	"github.com/crewjam/saml"
@@ -72,6 +74,14 @@ type Case struct {
 	// IDPLayout: "" = one IDPSSODescriptor; "later-descriptor" = a first descriptor that offers only
 	// other bindings (at other locations) in front of the one that has the endpoints in use.
 	IDPLayout string `json:"idp_layout,omitempty"`
+	// RespLoc: ResponseLocation of the IdP's SSO / SLO / artifact endpoints: "" absent | same (equal to
+	// Location) | other (a different URL).  Whatever destination the SP picks, its signature must
+	// verify over exactly what it emits.
+	RespLoc string `json:"resp_loc,omitempty"`
+	// Fields of the ServiceProvider that feed Metadata(): Intermediates (0..2 certificates) and
+	// MetaVary (bit 0: LogoutBindings redirect+POST, bit 1: AuthnNameIDFormat email, bit 2: MetadataValidDuration 1h).
+	Intermediates int `json:"intermediates,omitempty"`
+	MetaVary      int `json:"meta_vary,omitempty"`
 }
 
 // Prior is one earlier creation on the same SP.
@@ -216,6 +226,9 @@ func gen(t *rapid.T) Case {
 	}
 	c.ForceAuthn = rapid.SampledFrom([]string{"", "", "true", "false"}).Draw(t, "force")
 	c.IDPLayout = rapid.SampledFrom([]string{"", "", "later-descriptor"}).Draw(t, "idplayout")
+	c.RespLoc = rapid.SampledFrom([]string{"", "", "same", "other", "other"}).Draw(t, "resploc")
+	c.Intermediates = rapid.SampledFrom([]int{0, 0, 1, 2}).Draw(t, "intermediates")
+	c.MetaVary = rapid.IntRange(0, 7).Draw(t, "metavary")
 	hasMW := c.Msg == "mw"
 	for _, pr := range c.Prior {
 		hasMW = hasMW || pr.Msg == "mw"
@@ -240,8 +253,28 @@ func mustURL(s string) url.URL {
 	return *u
 }
 
+// intermediatesOf returns n certificates configured as the SP's chain (any certificates do: the
+// library publishes them, it does not validate the chain).
+func intermediatesOf(n int) []*x509.Certificate {
+	var out []*x509.Certificate
+	for _, name := range []string{"idp2", "attacker"}[:min(max(n, 0), 2)] {
+		out = append(out, fix.Get(name).Cert)
+	}
+	return out
+}
+
 func buildSP(c Case) *saml.ServiceProvider {
 	sp := buildSP0(c)
+	sp.Intermediates = intermediatesOf(c.Intermediates)
+	if c.MetaVary&1 != 0 {
+		sp.LogoutBindings = []string{saml.HTTPRedirectBinding, saml.HTTPPostBinding}
+	}
+	if c.MetaVary&2 != 0 {
+		sp.AuthnNameIDFormat = saml.EmailAddressNameIDFormat
+	}
+	if c.MetaVary&4 != 0 {
+		sp.MetadataValidDuration = time.Hour
+	}
 	if c.AuthnContext != "" {
 		sp.RequestedAuthnContext = &saml.RequestedAuthnContext{Comparison: "exact", AuthnContextClassRef: c.AuthnContext}
 	}
@@ -257,12 +290,22 @@ const artifactURL = "https://idp.example.org/artifact"
 
 func buildSP0(c Case) *saml.ServiceProvider {
 	k := fix.Get(c.Key)
+	ep := func(binding, location, other string) saml.Endpoint {
+		e := saml.Endpoint{Binding: binding, Location: location}
+		switch c.RespLoc {
+		case "same":
+			e.ResponseLocation = location
+		case "other":
+			e.ResponseLocation = other
+		}
+		return e
+	}
 	real := saml.IDPSSODescriptor{
 		SSODescriptor: saml.SSODescriptor{SingleLogoutServices: []saml.Endpoint{
-			{Binding: saml.HTTPRedirectBinding, Location: c.SLO}, {Binding: saml.HTTPPostBinding, Location: c.SLO}}},
+			ep(saml.HTTPRedirectBinding, c.SLO, "https://idp.example.org/slo-response?via=redirect"), ep(saml.HTTPPostBinding, c.SLO, "https://idp.example.org/slo-response-post")}},
 		SingleSignOnServices: []saml.Endpoint{
-			{Binding: saml.HTTPRedirectBinding, Location: c.SSO}, {Binding: saml.HTTPPostBinding, Location: c.SSO}},
-		ArtifactResolutionServices: []saml.Endpoint{{Binding: saml.SOAPBinding, Location: artifactURL}},
+			ep(saml.HTTPRedirectBinding, c.SSO, "https://idp.example.org/sso-response"), ep(saml.HTTPPostBinding, c.SSO, "https://idp.example.org/sso-response-post")},
+		ArtifactResolutionServices: []saml.Endpoint{ep(saml.SOAPBinding, artifactURL, "https://idp.example.org/artifact-response")},
 	}
 	descs := []saml.IDPSSODescriptor{real}
 	if c.IDPLayout == "later-descriptor" {
@@ -352,7 +395,10 @@ func (p *parties) middleware(c Case) (*samlsp.Middleware, error) {
 		md.IDPSSODescriptors[i].SingleSignOnServices = sso
 	}
 	opts := samlsp.Options{EntityID: c.EntityID, URL: mustURL("https://sp.example.com/"), Key: k.Key, Certificate: k.Cert, IDPMetadata: md,
-		SignRequest: true, ForceAuthn: c.ForceAuthn == "true", UseArtifactResponse: c.MWArtifact}
+		SignRequest: true, ForceAuthn: c.ForceAuthn == "true", UseArtifactResponse: c.MWArtifact, Intermediates: intermediatesOf(c.Intermediates)}
+	if c.MetaVary&1 != 0 {
+		opts.LogoutBindings = []string{saml.HTTPRedirectBinding, saml.HTTPPostBinding}
+	}
 	if c.AuthnContext != "" {
 		opts.RequestedAuthnContext = &saml.RequestedAuthnContext{Comparison: "exact", AuthnContextClassRef: c.AuthnContext}
 	}
@@ -488,7 +534,14 @@ func publishedCert(sp *saml.ServiceProvider) (*x509.Certificate, bool, error) {
 			if err != nil {
 				return nil, adv, fmt.Errorf("published signing certificate is not base64: %v", err)
 			}
-			cert, err := x509.ParseCertificate(der)
+			// A relying party takes THE certificate of the element: the first DER value in it.
+			// (With Intermediates the library appends further certificates to the same element;
+			// what follows the first certificate is not judged here.)
+			var first asn1.RawValue
+			if _, err := asn1.Unmarshal(der, &first); err != nil {
+				return nil, adv, fmt.Errorf("published signing certificate is not DER: %v", err)
+			}
+			cert, err := x509.ParseCertificate(first.FullBytes)
 			if err != nil {
 				return nil, adv, fmt.Errorf("published signing certificate does not parse: %v", err)
 			}
@@ -1030,6 +1083,27 @@ func enumMiddleware(_ string, emit func(Case)) {
 	}
 }
 
+// enumMetadataFeeds: every message kind x RSA / ECDSA x Intermediates 0/1/2 x ResponseLocation absent /
+// same / other on the IdP endpoints x the other fields that feed Metadata().
+func enumMetadataFeeds(_ string, emit func(Case)) {
+	ep := "https://idp.example.org/saml"
+	for _, k := range []string{"sp", "spec"} {
+		m := dsig.RSASHA256SignatureMethod
+		if k == "spec" {
+			m = dsig.ECDSASHA256SignatureMethod
+		}
+		for _, kind := range msgs {
+			for _, inter := range []int{0, 1, 2} {
+				for _, rl := range []string{"", "same", "other"} {
+					for _, mv := range []int{0, 7} {
+						emit(Case{Key: k, Method: m, Msg: kind, RelayState: "rs", NameID: "user@example.com", RequestID: "id-123", Artifact: "AAQAAMFb", SSO: ep, SLO: ep + "?slo=1", Intermediates: inter, RespLoc: rl, MetaVary: mv})
+					}
+				}
+			}
+		}
+	}
+}
+
 // enumCRText: a carriage return in every text-position content, each message kind, RSA and ECDSA.
 func enumCRText(_ string, emit func(Case)) {
 	for _, k := range []string{"sp", "spec"} {
@@ -1048,15 +1122,16 @@ func enumCRText(_ string, emit func(Case)) {
 var prop = &pbt.Prop[Case]{
 	ID: "C13",
 	Rule: "cases: signature method (8 supported URIs, 8 unknown / blank-but-set strings) x key (RSA-1024/2048/3072/4096, P-256/384/521) x message (AuthnRequest redirect/POST, LogoutRequest redirect/POST, LogoutResponse redirect/POST, ArtifactResolve in its SOAP envelope as sent, AuthnRequest as emitted by samlsp.Middleware (samlsp.New with SignRequest; Binding unset / redirect / POST x IdP offering both / only redirect / only POST SSO endpoints x stub / default request tracker x UseArtifactResponse)) x relay states x IdP endpoints with/without a query x optional request content (RequestedAuthnContext, ForceAuthn) x sequences of creations on one ServiceProvider value with SignatureMethod changed in between; the complete grid is enumerated, rapid adds relay states, name IDs, request IDs, artifacts and endpoints. " +
-		"oracle: certificate = the signing certificate in xml.Unmarshal(xml.Marshal(sp.Metadata())) (AuthnRequestsSigned must be true); redirect AuthnRequest: the query contains SAMLRequest[,RelayState],SigAlg,Signature contiguously and the signature verifies (stdlib RSA PKCS#1 v1.5 / ECDSA, DER or r||s) over exactly the octets from 'SAMLRequest=' up to '&Signature='; every other message: exactly one Signature child with the configured SignatureMethod, validated by a fresh goxmldsig context trusting only that certificate, on the bytes re-parsed from the wire; mismatching or unknown method: error (middleware: error status) and no message, never a panic; all results of a sequence are kept and judged after the last creation, each under the method in force when it was made, and must not have changed meanwhile. " +
+		"x SP fields that feed Metadata() (Intermediates 0-2, LogoutBindings, AuthnNameIDFormat, MetadataValidDuration) x IdP endpoint ResponseLocation (absent / equal / different). oracle: certificate = the first certificate of the signing key descriptor in xml.Unmarshal(xml.Marshal(sp.Metadata())) (AuthnRequestsSigned must be true); redirect AuthnRequest: the query contains SAMLRequest[,RelayState],SigAlg,Signature contiguously and the signature verifies (stdlib RSA PKCS#1 v1.5 / ECDSA, DER or r||s) over exactly the octets from 'SAMLRequest=' up to '&Signature='; every other message: exactly one Signature child with the configured SignatureMethod, validated by a fresh goxmldsig context trusting only that certificate, on the bytes re-parsed from the wire; mismatching or unknown method: error (middleware: error status) and no message, never a panic; all results of a sequence are kept and judged after the last creation, each under the method in force when it was made, and must not have changed meanwhile. " +
 		"non-trivial: method refused, or endpoint with a query, or a relay state that needs escaping. distinct: sha256 of the JSON case.",
 	Gen:   gen,
 	Check: check,
 	Reset: fix.Reset,
-	Enums: []pbt.Enum[Case]{{Name: "method-x-key-x-message-grid", Each: enumGrid}, {Name: "carriage-return-in-text-contents", Each: enumCRText}, {Name: "sequences-on-one-sp-and-request-options", Each: enumSequences}, {Name: "middleware-binding-x-idp-offers-x-method", Each: enumMiddleware}},
+	Enums: []pbt.Enum[Case]{{Name: "method-x-key-x-message-grid", Each: enumGrid}, {Name: "carriage-return-in-text-contents", Each: enumCRText}, {Name: "sequences-on-one-sp-and-request-options", Each: enumSequences}, {Name: "middleware-binding-x-idp-offers-x-method", Each: enumMiddleware}, {Name: "intermediates-x-responselocation-x-metadata-fields", Each: enumMetadataFeeds}},
 	Assumptions: []string{
 		"SignatureMethod \"\" means signing is not configured and is outside this property",
-		"SP Intermediates are not configured (not in the property's quantifier)",
+		"SP Intermediates (0..2 certificates) are configured; the verification certificate is the FIRST DER value of the first X509Certificate of the published signing key descriptor, as a relying party reads it; what the library appends after it in the same element is not judged",
+		"IdP endpoints carry no / an equal / a different ResponseLocation; which of the two the SP uses as destination is not judged here, only that the signature verifies over what is emitted",
 		"literal TAB / LF / CR inside attribute-position contents (request ID -> InResponseTo; entity ID -> SPNameQualifier) are counted, not judged: XML attribute-value normalisation, property silent",
 		"the ECDSA enveloped SignatureValue is judged by goxmldsig's own validation (the observation point the property names), whatever its DER / r||s layout",
 		"parameters following Signature in a redirect query are not judged",
